@@ -37,6 +37,8 @@ Inductive case :=
 | CValid (name : list Z) (err : Z) (panicked : bool)
   (* api.paramName *)
 | CParam (s : list Z) (r : option (list Z)) (panicked : bool)
+  (* srt streamID.unmarshal on a raw stream id (the decoded fields are C34's subject; here: does it panic?) *)
+| CSrt (raw : list Z) (failed : bool) (panicked : bool)
   (* RTSP DESCRIBE through a real Core: ctx_path = gortsplib's path of the request URL (oracle) *)
 | CRtsp (ctx_path : list Z) (status : Z)
   (* crash oracle (testing): after the hostile traffic described in desc, is the process alive and does
@@ -164,6 +166,12 @@ Definition mismatch (c : case) : bool :=
       | Ok v => panicked || negb (verr_code v =? err)
       | Panic => negb panicked
       end
+  | CSrt raw failed panicked =>
+      match srt_unmarshal raw with
+      | Ok (SidErr _) => panicked || negb failed      (* model: error *)
+      | Ok (SidOk _) => panicked || failed            (* model: parsed *)
+      | Panic => negb panicked
+      end
   | CParam s r panicked =>
       match param_name s with
       | Ok v => panicked || negb (opt_eqb v r)
@@ -192,6 +200,7 @@ Definition spec_fail (c : case) : bool :=
   | CMoqQuic _ _ panicked => panicked
   | CValid _ _ panicked => panicked
   | CParam _ _ panicked => panicked
+  | CSrt _ _ panicked => panicked
   | CRtsp _ status => status =? 0            (* 0 = no answer: the connection or the process died *)
   | CCrash _ alive answers => negb (alive && answers)
   end.
